@@ -55,8 +55,8 @@ type omitM struct {
 // Witnesses of the encoder-side known findings: each returns whether the defect still shows.
 var Witnesses = map[string]func() (bool, string){
 	known.EncDirectAggregate: func() (bool, string) { // crash-class: may kill the process (finding is marked crash)
-		one := 1
-		return differs([1]*int{&one})
+		p := &gen.PtrMJ{A: 1}
+		return differs(&p) // **T with marshal methods
 	},
 	known.EncMapKeyStringText: func() (bool, string) { return differs(map[gen.StrMT]int{"a": 1}) },
 	known.EncOmitemptyMarsh:   func() (bool, string) { return differs(omitM{}) },
@@ -89,6 +89,14 @@ var Witnesses = map[string]func() (bool, string){
 }
 
 func init() {
+	Witnesses["FX-ENC-pointer-shaped-array-and-struct"] = func() (bool, string) {
+		one := 1
+		m := map[string]int{"a": 1}
+		d1, m1 := differs([1]*int{&one})
+		d2, m2 := differs(struct{ A [1]map[string]int }{[1]map[string]int{m}})
+		d3, m3 := differs([]interface{}{[1]*int{nil}, struct{ a *int }{}})
+		return d1 || d2 || d3, m1 + " ; " + m2 + " ; " + m3
+	}
 	Witnesses["FX-ENC-nested-embedded-last-field"] = func() (bool, string) { return differs(embOut{}) }
 	Witnesses["FX-ENC-indent-nil-marshaler-panic"] = func() (bool, string) {
 		v := [2]*stdjson.RawMessage{}
